@@ -80,6 +80,7 @@ let parse_op (toks : string list) : op =
   | ["dirty"; t] -> ODirty (id t)
   | ["mkroot"; t; r] -> OMakeRoot (id t, id r)
   | ["load"; r; t; s; kind] -> OLoad (id r, id t, id s, id kind)
+  | ["loadnc"; r; t; s; kind] -> OLoad (id r, id t, id s, id kind)   (* the model has no cache *)
   | ["rootset"; r2; r; size; height; bf; f; dl] ->
       ORootSet (id r2, id r, opt n_of_dec size, opt (fun x -> nat_of_int (int_of_string x)) height,
                 opt n_of_dec bf, (if f = "-" then None else Some (if f = "empty" then [] else bytes_of_hex f)), dl = "1")
